@@ -135,6 +135,9 @@ IPanic                  == [op |-> "panic"]
 (*   hasR  : the cache has a reloader   msgs : AddAsset messages sent       *)
 (*   gen   : next value token           nread/nrdir/nldr : call counters    *)
 (*   fault : None | [what, at, kind]    dropped : tokens dropped on the way *)
+(*   unrec : reloadable assets looked up while no recorder was active       *)
+(*   fhit  : an injected fault hit during the evaluation in progress        *)
+(*   taint : keys whose current value was computed while a fault hit        *)
 (* A cache entry: [val, dyn, rid, origin, tok].                             *)
 Entry(val, dyn, origin, tok) == [val |-> val, dyn |-> dyn, rid |-> 0, origin |-> origin, tok |-> tok]
 
@@ -169,7 +172,8 @@ DoRead(E, R, id, ext) ==
               ELSE IF c = None THEN [s |-> "io", kind |-> "notfound"]
               ELSE IF c.c = "io" THEN [s |-> "io", kind |-> c.kind]
               ELSE [s |-> "ok", c |-> c]
-    IN [E |-> [E EXCEPT !.nread = @ + 1, !.reads = Append(@, FileE(id, ext))], R |-> R1, st |-> st]
+    IN [E |-> [E EXCEPT !.nread = @ + 1, !.reads = Append(@, FileE(id, ext)),
+                        !.fhit = @ \/ FaultHits(E, "read", E.nread)], R |-> R1, st |-> st]
 
 DoReadDir(E, R, id) ==
     LET R1 == RecAdd(R, DirE(id), E)
@@ -177,11 +181,12 @@ DoReadDir(E, R, id) ==
               ELSE IF id \in DOMAIN E.baddirs THEN [s |-> "io", kind |-> E.baddirs[id]]
               ELSE IF ~DirExists(E, id) THEN [s |-> "io", kind |-> "notfound"]
               ELSE [s |-> "ok", ents |-> Children(E, id)]
-    IN [E |-> [E EXCEPT !.nrdir = @ + 1, !.reads = Append(@, DirE(id))], R |-> R1, st |-> st]
+    IN [E |-> [E EXCEPT !.nrdir = @ + 1, !.reads = Append(@, DirE(id)),
+                        !.fhit = @ \/ FaultHits(E, "readdir", E.nrdir)], R |-> R1, st |-> st]
 
 (* The loader of a leaf type on one file content. *)
 DoDecode(E, c, ext) ==
-    LET E1 == [E EXCEPT !.nldr = @ + 1] IN
+    LET E1 == [E EXCEPT !.nldr = @ + 1, !.fhit = @ \/ FaultHits(E, "loader", E.nldr) \/ FaultHits(E, "panic", E.nldr)] IN
     IF FaultHits(E, "loader", E.nldr) THEN [E |-> E1, ok |-> FALSE, err |-> EConv(ext), panic |-> FALSE]
     ELSE IF FaultHits(E, "panic", E.nldr) THEN [E |-> E1, ok |-> FALSE, err |-> EPanic, panic |-> TRUE]
     ELSE IF c.c = "v" THEN [E |-> E1, ok |-> TRUE, val |-> VLeaf(c.n, ext), panic |-> FALSE]
@@ -220,15 +225,21 @@ Fail(E, R, err, panic) == [E |-> E, R |-> R, ok |-> FALSE, err |-> err, panic |-
 
 (* mode "load": get-or-(load then insert).  mode "owned": load_owned.       *)
 (* mode "reload": re-run the load of a cached key (no look-up, no insert).  *)
-LoadKey(E, R, k, mode, scripts) ==
-    LET hot == IsHot(k.ty, E)
-        R1  == IF hot /\ mode # "reload" THEN RecAdd(R, AssetD(k), E) ELSE R
+LoadKey(Ein, R, k, mode, scripts) ==
+    LET hot == IsHot(k.ty, Ein)
+        R1  == IF hot /\ mode # "reload" THEN RecAdd(R, AssetD(k), Ein) ELSE R
+        \* a look-up of a reloadable asset that nobody records (no_record, or top level)
+        E   == IF hot /\ mode # "reload" /\ ~R.on THEN [Ein EXCEPT !.unrec = @ \cup {AssetD(k)}] ELSE Ein
     IN
     IF mode = "load" /\ E.cache[k] # None
     THEN [E |-> E, R |-> R1, ok |-> TRUE, val |-> E.cache[k].val, panic |-> FALSE, hit |-> TRUE]
     ELSE
       LET inner == IF hot THEN RecNew ELSE R1
-          b     == Body(E, inner, k, scripts)
+          b0    == Body([E EXCEPT !.fhit = FALSE], inner, k, scripts)
+          \* did an injected fault hit while k's value was being computed (history, for C05's antecedent)
+          hit   == b0.E.fhit
+          b     == [b0 EXCEPT !.E = [b0.E EXCEPT !.fhit = E.fhit \/ hit,
+                                                 !.taint = IF ~b0.ok THEN @ ELSE IF hit THEN @ \cup {k} ELSE @ \ {k}]]
           Rout  == IF hot THEN R1 ELSE b.R
       IN
       IF b.ok
@@ -301,7 +312,8 @@ Instr(E, R, k, ins, scripts) ==
       [] ins.op = "get" ->
             LET kk == Key(ins.ty, ins.id)
                 R1 == IF IsHot(ins.ty, E) THEN RecAdd(R, AssetD(kk), E) ELSE R IN
-            Step(E, R1, IF E.cache[kk] = None THEN ONone ELSE OVal(E.cache[kk].val), None, FALSE)
+            Step(IF IsHot(ins.ty, E) /\ ~R.on THEN [E EXCEPT !.unrec = @ \cup {AssetD(kk)}] ELSE E,
+                 R1, IF E.cache[kk] = None THEN ONone ELSE OVal(E.cache[kk].val), None, FALSE)
       [] ins.op = "contains" ->
             Step(E, R, OBool(E.cache[Key(ins.ty, ins.id)] # None), None, FALSE)
       [] ins.op = "goi" ->
